@@ -5,6 +5,7 @@ import (
 	"go/constant"
 	"go/token"
 	"go/types"
+	"runtime"
 	"sort"
 	"strings"
 	"sync"
@@ -161,26 +162,27 @@ type NamedTerm struct {
 }
 
 type Ctx struct {
-	Prog       *ssa.Program
-	Intrinsics map[string]Intrinsic
-	Contracts  map[string]Contract
-	Inline     func(caller, callee *ssa.Function) bool
-	Loops      func(fn *ssa.Function, loopOrdinal int) *LoopSpec
-	mu         sync.Mutex
-	objN       int
-	symN       int
-	globals    map[*ssa.Global]*Object
-	globalHeap map[*Object]Value
-	initDone   map[*ssa.Package]bool
-	MaxPaths   int
-	MaxVisits  int
-	NoMerge    bool
-	Notes      map[string]bool
+	Prog         *ssa.Program
+	Intrinsics   map[string]Intrinsic
+	Contracts    map[string]Contract
+	Inline       func(caller, callee *ssa.Function) bool
+	Loops        func(fn *ssa.Function, loopOrdinal int) *LoopSpec
+	mu           sync.Mutex
+	objN         int
+	symN         int
+	globals      map[*ssa.Global]*Object
+	globalHeap   map[*Object]Value
+	initDone     map[*ssa.Package]bool
+	initFinished map[*ssa.Package]bool
+	MaxPaths     int
+	MaxVisits    int
+	NoMerge      bool
+	Notes        map[string]bool
 }
 
 func NewCtx(prog *ssa.Program) *Ctx {
 	return &Ctx{Prog: prog, Intrinsics: map[string]Intrinsic{}, Contracts: map[string]Contract{},
-		globals: map[*ssa.Global]*Object{}, globalHeap: map[*Object]Value{}, initDone: map[*ssa.Package]bool{},
+		globals: map[*ssa.Global]*Object{}, globalHeap: map[*Object]Value{}, initDone: map[*ssa.Package]bool{}, initFinished: map[*ssa.Package]bool{},
 		MaxPaths: 20000, MaxVisits: 40, Notes: map[string]bool{}}
 }
 
@@ -263,6 +265,9 @@ type FnExec struct {
 	discoverHeader *ssa.BasicBlock
 	mute           bool
 	strAlloc       *Term
+	// SpecOpaque: during evaluation of a spec function, calls for which it returns true are not unfolded but
+	// become applications of uninterpreted functions.
+	SpecOpaque func(f *ssa.Function, depth int) bool
 }
 
 func (cx *Ctx) NewFnExec(fn *ssa.Function) *FnExec {
@@ -584,11 +589,22 @@ func toIdx(s Value, t types.Type) *Term {
 // ---------------- globals ----------------
 
 func (cx *Ctx) globalObj(g *ssa.Global) *Object {
+	// package initialisers are evaluated once, under initMu; a reader must not see a half-initialised package
 	cx.mu.Lock()
-	o, ok := cx.globals[g]
+	fin := cx.initFinished[g.Pkg]
+	o := cx.globals[g]
 	cx.mu.Unlock()
-	if ok {
+	if fin && o != nil {
 		return o
+	}
+	if cx.initOwner() {
+		// called from inside the initialiser itself
+		cx.mu.Lock()
+		o = cx.globals[g]
+		cx.mu.Unlock()
+		if o != nil {
+			return o
+		}
 	}
 	cx.initPackage(g.Pkg)
 	cx.mu.Lock()
@@ -600,8 +616,36 @@ var initMu sync.Mutex
 
 // initPackage executes the package initialiser symbolically (concretely, in fact) to obtain global values.
 func (cx *Ctx) initPackage(p *ssa.Package) {
+	if cx.initOwner() {
+		// nested: an initialiser referring to another package's globals
+		cx.initPackageLocked(p)
+		return
+	}
 	initMu.Lock()
-	defer initMu.Unlock()
+	initGID = curGID()
+	defer func() { initGID = 0; initMu.Unlock() }()
+	cx.initPackageLocked(p)
+}
+
+var initGID int64
+
+func (cx *Ctx) initOwner() bool { return initGID != 0 && initGID == curGID() }
+
+func curGID() int64 {
+	var buf [64]byte
+	n := runtime.Stack(buf[:], false)
+	// "goroutine 123 ["
+	var id int64
+	for _, c := range buf[10:n] {
+		if c < '0' || c > '9' {
+			break
+		}
+		id = id*10 + int64(c-'0')
+	}
+	return id
+}
+
+func (cx *Ctx) initPackageLocked(p *ssa.Package) {
 	cx.mu.Lock()
 	done := cx.initDone[p]
 	cx.initDone[p] = true
@@ -609,6 +653,11 @@ func (cx *Ctx) initPackage(p *ssa.Package) {
 	if done {
 		return
 	}
+	defer func() {
+		cx.mu.Lock()
+		cx.initFinished[p] = true
+		cx.mu.Unlock()
+	}()
 	et := types.Universe.Lookup("error").Type()
 	for _, m := range p.Members {
 		if g, ok := m.(*ssa.Global); ok {
@@ -646,7 +695,7 @@ func (cx *Ctx) initPackage(p *ssa.Package) {
 			cx.mu.Lock()
 			for o, v := range st2.Heap {
 				if o.Prov == ProvGlobal {
-					cx.globalHeap[o] = v
+					cx.globalHeap[o] = constTable(o.Name, v)
 				}
 			}
 			cx.mu.Unlock()
@@ -671,7 +720,7 @@ func (fx *FnExec) execFunc(parent *Frame, fn *ssa.Function, args []Value, st *St
 	if parent != nil {
 		fr.Depth = parent.Depth + 1
 	}
-	if fr.Depth > 40 {
+	if fr.Depth > 600 {
 		panic(Unsupported{"inline depth exceeded at " + fn.String()})
 	}
 	for i, p := range fn.Params {
@@ -1519,9 +1568,42 @@ func (fx *FnExec) callFunc(fr *Frame, c *ssa.Call, f *ssa.Function, args []Value
 		ct.Apply(fx, fr, f, args, st, site, k)
 		return
 	}
-	if f.Blocks != nil && (fx.Cx.Inline == nil || fx.Cx.Inline(fx.Fn, f)) {
+	if fx.SpecOpaque != nil && fx.SpecOpaque(f, fr.Depth+1) {
+		k(st, fx.OpaqueApply(f, args))
+		return
+	}
+	if f.Blocks != nil && (fx.SpecOpaque != nil || fx.Cx.Inline == nil || fx.Cx.Inline(fx.Fn, f)) {
 		fx.Inlined[name] = true
-		fx.execFunc(fr, f, args, st, fr.Prefix, k)
+		// collect the callee's return paths and join them, so that a callee with several returns does not
+		// multiply the caller's paths
+		base := len(st.PC)
+		type retT struct {
+			st *State
+			v  Value
+		}
+		var rets []retT
+		fx.execFunc(fr, f, args, st, fr.Prefix, func(s2 *State, r Value) {
+			rets = append(rets, retT{s2, r})
+		})
+		if len(rets) > 1 && len(rets) <= 16 && !fx.Cx.NoMerge {
+			var rs []mergeRes
+			ok := true
+			for _, r := range rets {
+				if len(r.st.PC) < base {
+					ok = false
+				}
+				rs = append(rs, mergeRes{st: r.st})
+			}
+			if ok {
+				if ms, mv, ok2 := fx.mergeStatesVals(base, rs, func(i int) Value { return rets[i].v }); ok2 {
+					k(ms, mv)
+					return
+				}
+			}
+		}
+		for _, r := range rets {
+			k(r.st, r.v)
+		}
 		return
 	}
 	panic(Unsupported{"call to function without contract or model: " + name})
@@ -1896,4 +1978,22 @@ func LoopBlocks(h *ssa.BasicBlock) map[*ssa.BasicBlock]bool {
 		}
 	}
 	return in
+}
+
+// constTable turns a large array of constants (built by a chain of stores during package init) into a table.
+func constTable(name string, v Value) Value {
+	a, ok := v.(ArrV)
+	if !ok || !a.Len.IsConst() || a.Len.Val <= vecMax || a.Len.Val > 65536 {
+		return v
+	}
+	n := a.Len.Val
+	vals := make([]uint64, n)
+	for i := uint64(0); i < n; i++ {
+		e := a.C.Elem(BV64(i))
+		if !e.IsConst() {
+			return v
+		}
+		vals[i] = e.Val
+	}
+	return ArrV{EW: a.EW, Len: a.Len, C: &CTab{Name: name, V: vals, W: a.EW}}
 }
